@@ -259,7 +259,7 @@ var vfC05Pops = []int{0, 1, 2, 3, 4, 5, 6, 7, 8, 9, 15, 16, 17, 31, 32, 33, 63, 
 
 func vfC05gen(t *rapid.T) *vfC05Case {
 	c := &vfC05Case{}
-	c.Shape = rapid.SampledFrom([]string{"mixed", "mixed", "one-prefix", "many-prefixes", "edge-prefixes", "empty", "dups", "big-bucket"}).Draw(t, "shape")
+	c.Shape = rapid.SampledFrom([]string{"mixed", "mixed", "one-prefix", "many-prefixes", "edge-prefixes", "empty", "dups", "all-prefixes", "big-bucket"}).Draw(t, "shape")
 	c.Seed = rapid.Uint64().Draw(t, "seed")
 	c.Order = rapid.SampledFrom([]string{"grouped", "interleaved", "reverse"}).Draw(t, "order")
 	c.MetaN = rapid.SampledFrom([]int{0, 1, 3, 20}).Draw(t, "metaN")
@@ -274,6 +274,25 @@ func vfC05gen(t *rapid.T) *vfC05Case {
 		nb = 0
 	}
 	used := map[uint16]bool{}
+	if c.Shape == "all-prefixes" {
+		// every one of the 65 536 two-byte prefixes populated (or all but one): the prefix table at its full size
+		skip := -1
+		if rapid.Bool().Draw(t, "allButOne") {
+			skip = rapid.IntRange(0, 65535).Draw(t, "skipPrefix")
+		}
+		for p := 0; p < 65536; p++ {
+			if p == skip {
+				continue
+			}
+			pop := 1
+			if p == 0 || p == 0xffff || p == 0x00ff || p == 0xff00 {
+				pop = 3
+			}
+			c.Buckets = append(c.Buckets, vfC05Bucket{Prefix: uint16(p), Pop: pop})
+			used[uint16(p)] = true
+		}
+		nb = 0
+	}
 	if c.Shape == "big-bucket" {
 		// one prefix filled around / beyond the writer's per-bucket reservation (16 000 entries), its neighbours
 		// in both byte orders lightly populated
@@ -348,7 +367,7 @@ func vfC05classes(c *vfC05Case) (bool, []string) {
 func TestVfC05(t *testing.T) {
 	run := vfh.Begin("C05", "current")
 	defer run.End(t)
-	run.Require("shape:big-bucket", "shape:mixed", "shape:one-prefix", "shape:many-prefixes", "shape:edge-prefixes", "shape:empty", "shape:dups", "pop=2^k", "pop=0")
+	run.Require("shape:big-bucket", "shape:all-prefixes", "shape:mixed", "shape:one-prefix", "shape:many-prefixes", "shape:edge-prefixes", "shape:empty", "shape:dups", "pop=2^k", "pop=0")
 	rapid.Check(t, func(rt *rapid.T) {
 		c := vfC05gen(rt)
 		run.SetLast(c)
